@@ -38,12 +38,15 @@ theorem instrOK_r3 (op : R3) (rd rs rt : Reg) : InstrOK (.r3 op rd rs rt) := by
     simp only [liftI, Option.some.injEq] at hl; subst hl; subst h3
     obtain ⟨σ', hr, hsim⟩ := movz_correct hσ rd rs rt a 4091
     exact ⟨rfl, σ', hr, hsim, rfl⟩
-  have hm : op ≠ .mul := by
-    intro h; subst h; simp [liftI, r3Expr] at hl
+  by_cases hm : op = .mul
+  · subst hm
+    simp only [liftI, Option.some.injEq] at hl; subst hl; subst h3
+    obtain ⟨σ', hr, hsim⟩ := mul_correct hσ rd rs rt a
+    exact ⟨rfl, σ', hr, hsim, rfl⟩
   have hu' : u = false := by
     rw [← h3]; cases op <;> first | rfl | exact absurd rfl hm
   subst hu'
-  obtain ⟨he, σ', hr, hsim⟩ := r3_correct hσ op rd rs rt a f hl ⟨hs, hu, hn, hz⟩ 4094
+  obtain ⟨he, σ', hr, hsim⟩ := r3_correct hσ op rd rs rt a f hl ⟨hs, hu, hn, hz, hm⟩ 4094
   exact ⟨he, σ', hr, hsim, rfl⟩
 
 theorem instrOK_shi (op : Sh) (rd rt : Reg) (sa : BitVec 5) : InstrOK (.shi op rd rt sa) := by
